@@ -25,6 +25,36 @@ CHECKS = {
         technique='runtime monitoring under the deterministic scheduler with a shim thread-pool executor: piter_multiplex/piter_fn/piter/pmap/MultiplexIterator run to exhaustion, to every early-stop position and to every failure position; oracle = multiset equality with the sequential evaluation, generator return values, pool shut-down flags and exact all-threads-finished / deadlock witnesses',
         text='Explores thousands of schedules per tier of the real parallel-iteration code; thread release is decided exactly (every controlled worker finished, library-owned pool shut down) instead of by thread enumeration after a sleep.',
         note='As C04; element-wise iterator functions; implicit pools only have to end idle. Known finding recorded: piter with several inputs leaves the upstream queue producers blocked on early stop/failure.'),
+    'C15': dict(
+        category='exploration', design_ref='DESIGN.md §3.2, §4 C15', engine='E2-deterministic-scheduler',
+        technique='runtime monitoring under the deterministic scheduler: a PrefetchedCourierServer (built on the simulated transport, not started) has its handlers invoked by controlled request threads while its shimmed prefetch thread runs; every generator length/failure position, re-initialisation point and concurrent init/stop/shutdown point is combined with explored schedules; an offline checker over the batch log decides order, exactly-once, single end marker, no mixing, and hangs are exact deadlock witnesses',
+        text='Explores the prefetch-thread/request interleavings the unit tests cannot control, with enumerated failure, re-init and shutdown points.',
+        note='As C04; the handlers are invoked directly (no wire). Known finding recorded: partial batch dropped on generator failure.'),
+    'C02': dict(
+        category='exploration', design_ref='DESIGN.md §4 C02',
+        technique='runtime differential monitor: generated pipelines with aggregates and slicers run through the real runner (call, iterate, StopIteration value, update/merge paths) and are compared with an independent brute-force group-by using exact aggregators; metamorphic twins without/with fewer slicers',
+        text='About 1.5k generated pipelines per quick run (100k thorough) with streams where slices appear late or only in some batches; exact harness aggregators make any mis-routed row visible.',
+        note='Oracle validated against the literal slice expectations of transform_test.py. Two known findings recorded.'),
+    'C07': dict(
+        category='exploration', design_ref='DESIGN.md §4 C07',
+        technique='runtime differential monitor: every metric family is evaluated through function API, AggregateFn call and accumulator paths on generated inputs and compared with independent brute-force Fraction oracles (validated against 358 literal expectations of the repository tests); alias and range monitors',
+        text='About 7.8k (input, configuration) cases and 330k value checks per quick run, 500k cases thorough, against textbook definitions computed from the raw examples.',
+        note='Domain restrictions listed in the evidence assumptions (zero-denominator convention, dyadic grids for histograms, retrieval rows non-empty). Three known findings recorded.'),
+    'C17': dict(
+        category='exploration', design_ref='DESIGN.md §4 C17',
+        technique='runtime monitor with a reference model: generated lazy expression trees are materialised (also after a pickle round trip) against an eager twin with call counters; operation histories exceeding the cache bounds are checked step by step against a 15-line reference LRU (hits, misses, eviction order, identity, missing-object errors) and LruCache invariants',
+        text='About 2k expression trees and 100 long make/clear histories per quick run (430k cases thorough).',
+        note='Expression identity follows Python equality/hash as for functools.lru_cache; single-threaded histories.'),
+    'C18': dict(
+        category='exploration', design_ref='DESIGN.md §4 C18',
+        technique='runtime monitor with a reference model: sequences of copying set/update operations on generated trees are compared with an independent persistent-update model; deep snapshots and node identities of the originals are compared before/after; independent DFS and recursive map for items/apply',
+        text='16k operation sequences per quick run (480k thorough) with about 3M snapshot checks.',
+        note='Only the documented set/get forms are generated (see assumptions).'),
+    'C19': dict(
+        category='exploration', design_ref='DESIGN.md §4 C19',
+        technique='runtime monitor on an exhaustively enumerated space: every size sequence of length <= 5 over sizes 0-6 x targets 1-7 x 1-3 columns x container kinds is re-batched by the real rebatched_args (and through apply/select/batch pipelines) and checked for row conservation, order, alignment, batch sizes and tail-only padding using unique cell ids',
+        text='1.86M cases per quick run (exhaustive small space), 21M thorough incl. random long streams.',
+        note='The stream is passed as an iterator; columns of a batch have equal length.'),
 }
 
 NOT_APPLICABLE = {}
